@@ -129,7 +129,8 @@ type DirProj struct {
 	Graphs        []GraphProj `json:"graphs"`
 	HasCkpt       bool        `json:"has_ckpt"`
 	CkptParsed    bool        `json:"ckpt_parsed"`
-	CkptFiles     []string    `json:"ckpt_files"` // fragments the checkpoint records as committed
+	CkptFiles     []string    `json:"ckpt_files"`    // fragments the checkpoint records as committed
+	CkptSnapshot  bool        `json:"ckpt_snapshot"` // the checkpoint holds entity counts of the source (of a completed or the current graph)
 	Frags         []FragProj  `json:"frags"`
 	Temps         []string    `json:"temps"`
 	Other         []string    `json:"other"`
@@ -225,7 +226,8 @@ func Project(dir string) DirProj {
 		var c struct {
 			Manifest retriever.Manifest `json:"manifest"`
 			Current  *struct {
-				Files []retriever.FileManifest `json:"files"`
+				Files       []retriever.FileManifest `json:"files"`
+				HasSnapshot bool                     `json:"has_snapshot"`
 			} `json:"current_graph"`
 		}
 		if json.Unmarshal(raw, &c) == nil {
@@ -235,6 +237,7 @@ func Project(dir string) DirProj {
 					p.CkptFiles = append(p.CkptFiles, f.Path)
 				}
 			}
+			p.CkptSnapshot = len(c.Manifest.Graphs) > 0 || (c.Current != nil && c.Current.HasSnapshot)
 			if c.Current != nil {
 				for _, f := range c.Current.Files {
 					p.CkptFiles = append(p.CkptFiles, f.Path)
